@@ -195,7 +195,8 @@ def plan(tier, seed):
     sp.update({"ra": (0, 4), "pa": (0, 4), "ta": (0, 4), "rbd": (0, 4), "pbd": (0, 4), "tbd": (0, 4)})
     spre = list(pre) + ["has_ts or (ta == 0 and tbd == 0)", "rbd == 0 or (rb & 1)", "pbd == 0 or (pb & 1)", "tbd == 0 or ((rb | pb | tb) & 1)"]
     if tier == "quick":
-        spre += ["rbd in (0, 1, 2)", "pbd in (0, 1, 3)", "tbd in (0, 1)", "ra + pa + ta == 0 or rbd + pbd + tbd == 0", "tb in (0, 4) or ta + tbd == 0"]
+        spre += ["rbd in (0, 1, 2)", "pbd in (0, 1, 3)", "tbd in (0, 1)", "ra + pa + ta == 0 or rbd + pbd + tbd == 0", "tb in (0, 4) or ta + tbd == 0",
+                 "ta in (0, 1, 3)", "rb in (0, 1, 3, 5, 7) or ra + pa + rbd + pbd == 0"]
     units.append(Sel(name="scrg3", func="vp.props.C08:scrg3", params=sp, pre=spre, shard_by=["has_ts"], timeout=1500))
     if tier == "thorough":
         b4 = {"rb": (0, 16), "pb": (0, 16), "has_ts": "bool", "tb": (0, 16)}
